@@ -695,3 +695,66 @@ def stmt_calls(stmt):
             if isinstance(n, ast.Call):
                 out.append(n)
     return out
+
+
+# ----------------------------------------------------------------------------------------------
+# method closure along the MRO of a concrete class
+
+
+def self_method_calls(func):
+    """[(kind, name, call)] for self.name(...), super().name(...), Class.name(self, ...)."""
+    out = []
+    for n in body_nodes(func):
+        if isinstance(n, ast.Call) and isinstance(n.func, ast.Attribute):
+            v = n.func.value
+            if isinstance(v, ast.Name) and v.id in ('self', 'cls'):
+                out.append(('self', n.func.attr, n))
+            elif isinstance(v, ast.Call) and isinstance(v.func, ast.Name) and v.func.id == 'super':
+                out.append(('super', n.func.attr, n))
+            elif isinstance(v, ast.Name) and n.args and isinstance(n.args[0], ast.Name) and \
+                    n.args[0].id == 'self':
+                out.append(('class:' + v.id, n.func.attr, n))
+    return out
+
+
+def closure(ct, cls, start, depth=8):
+    """Functions reachable from method `start` of concrete class `cls` via self/super calls,
+    resolved along cls's MRO. Returns list of (defining ClassInfo, FunctionDef, chain) where
+    chain is the tuple of (class.method) names leading there."""
+    out = []
+    seen = set()
+
+    def visit(owner, f, chain, d):
+        if id(f) in seen or d > depth:
+            return
+        seen.add(id(f))
+        out.append((owner, f, chain))
+        for kind, name, call in self_method_calls(f):
+            if kind == 'self':
+                o2, f2 = ct.resolve_method(cls, name)
+            elif kind == 'super':
+                if owner not in cls.mro:
+                    continue
+                o2, f2 = ct.resolve_method(cls, name, after=owner)
+            else:
+                base = ct.lookup(kind.split(':', 1)[1], owner.module)
+                if base is None:
+                    continue
+                o2, f2 = ct.resolve_method(base, name)
+            if f2 is not None:
+                visit(o2, f2, chain + ('%s.%s' % (o2.name, name), ), d + 1)
+
+    o, f = ct.resolve_method(cls, start)
+    if f is None:
+        return out
+    visit(o, f, ('%s.%s' % (o.name, start), ), 0)
+    return out
+
+
+def in_loop(node, func):
+    p = parent(node)
+    while p is not None and p is not func:
+        if isinstance(p, (ast.For, ast.While, ast.AsyncFor)):
+            return True
+        p = parent(p)
+    return False
